@@ -55,6 +55,8 @@ type c01Run struct {
 	tenants   []*c01Tenant
 	cfgKV     c01KV
 	backendKV []c01KV
+	// mode etcd: the storage the hub was created with
+	startStorage BackendStorage
 	hub       *Hub
 	events    AsyncEvents
 	hubL      *c01Listener
@@ -110,6 +112,8 @@ func (r *c01Run) start() string {
 		if l := r.cfgKV.raw("aa.limit"); l != "" && l != "0" {
 			config.AddOption("backend", "sessionlimit", l)
 		}
+	case "etcd":
+		// no backend in the configuration file: they arrive as etcd keys once the hub exists (below)
 	default:
 		var ids []string
 		for _, b := range r.backendKV {
@@ -142,6 +146,31 @@ func (r *c01Run) start() string {
 	}
 	r.hub = hub
 
+	if r.cfgKV.raw("mode") == "etcd" {
+		// The real etcd backend storage, fed the way the etcd client feeds a starting server (no etcd server
+		// needed): one EtcdKeyUpdated per key, in key order.
+		st := &backendStorageEtcd{
+			backendStorageCommon: backendStorageCommon{backends: make(map[string][]*Backend)},
+			keyInfos:             make(map[string]*BackendInformationEtcd),
+		}
+		kvs := append([]c01KV{}, r.backendKV...)
+		sort.SliceStable(kvs, func(i, j int) bool { return kvs[i].s("id") < kvs[j].s("id") })
+		for _, b := range kvs {
+			id := b.s("id")
+			info := map[string]any{"url": b.s("raw"), "secret": "secret-" + id}
+			if l, err := strconv.Atoi(b.raw("limit")); err == nil && l > 0 {
+				info["sessionlimit"] = l
+			}
+			val, err := json.Marshal(info)
+			if err != nil {
+				panic(err)
+			}
+			st.EtcdKeyUpdated(nil, id, val, nil)
+		}
+		r.startStorage = hub.backend.backends.storage
+		hub.backend.backends.storage = st
+	}
+
 	// the server's own throttler, without real sleeping
 	hub.throttler.Close()
 	hub.throttler = &memoryThrottler{
@@ -172,8 +201,17 @@ func (r *c01Run) start() string {
 	r.foreign, _ = other.EncodePrivate(&SessionIdData{Sid: 1, BackendId: "b1"})
 
 	// digest of the table the hub holds
-	st, ok := hub.backend.backends.storage.(*backendStorageStatic)
-	if !ok {
+	var st struct {
+		backends      map[string][]*Backend
+		allowAll      bool
+		compatBackend *Backend
+	}
+	switch s := hub.backend.backends.storage.(type) {
+	case *backendStorageStatic:
+		st.backends, st.allowAll, st.compatBackend = s.backends, s.allowAll, s.compatBackend
+	case *backendStorageEtcd:
+		st.backends = s.backends
+	default:
 		return "cfg unexpected-storage"
 	}
 	showB := func(b *Backend) string {
@@ -228,6 +266,10 @@ func (r *c01Run) stop() {
 		r.hub.mu.Unlock()
 		for _, s := range ss {
 			s.Close()
+		}
+		if r.startStorage != nil {
+			// Hub.Run closes the backend storage on its way out; the stand-alone etcd storage has no client to detach from
+			r.hub.backend.backends.storage = r.startStorage
 		}
 		r.hub.Stop()
 		r.hubSrv.Close()
